@@ -26,6 +26,14 @@ section "Round 3d: C19".
     whole pattern, checked on the parsed pattern)                    -> `m[0]` / `m[1]` / `m`
  L3 the empty string literal `''` in a function whose declared texts are polymorphic lists (`List a`) -> `[]`
     (a str is the list of its code points; a non-empty literal is left alone and refused by the base translator).
+ L5 a parameter the spec declares a PREDICATE on texts (`c19.pred: {key: op}`): it leaves the parameter list and
+    `key(E)` (one positional argument) -> `%c19.<op>(E)` = `PyRtC19.lineKey E`, the `key` field of the instance
+    `[PyRtC19.LineKey a]` the generated definition takes (spec `classes`); the tie theorem holds for EVERY instance.
+    side conditions: `key` is never rebound and has no other occurrence.  The predicate is assumed pure (no effect on
+    the other arguments, no exception) - what the hand model's `key : List Nat -> Bool` assumes.
+ L6 `S.join(E)`, `S` a declared text parameter                        -> `%c19.join(S, E)` = `PyRtC19.join`
+ L7 default values of parameters are dropped (the generated definition takes every parameter explicitly; a default is
+    API, evaluated once, and not part of what the tie says).
  L4 `f(<T>)` where `f` is a function of the same spec group translated BEFORE this one and given extra parameters by
     L1, `<T>` a declared text parameter of this function             -> `f(<T>, P...)`, and this function gets the same
     extra parameters (they stand for the same thing: the regex applied to the same text).
@@ -49,7 +57,10 @@ RT_IMPORT = 'PyRtC19'
 OP = '%c19.'
 
 # operation -> (parameter types, result type, Lean function)
-OPS = {}
+OPS = {
+    'line_key': (['List α'], 'Bool', 'PyRtC19.lineKey'),     # L5: the caller's predicate `key`, a type-class parameter
+    'join': (['List α', 'List (List α)'], 'List α', 'PyRtC19.join'),     # L6: `sep.join(parts)`
+}
 
 
 # --------------------------------------------------------------------------------------------------- prepass
@@ -121,6 +132,18 @@ class _Rewrite(ast.NodeTransformer):
                 return ast.copy_location(base, n)
             return ast.copy_location(ast.Subscript(value=base, slice=ast.Constant(value=0 if f.attr == 'start' else 1),
                                                    ctx=ast.Load()), n)
+        if isinstance(f, ast.Name) and f.id in getattr(self, 'preds', {}) and len(n.args) == 1 and not n.keywords \
+                and not isinstance(n.args[0], ast.Starred):
+            self.notes.add('c19:predicate-call')
+            op = ast.Name(id=OP + self.preds[f.id], ctx=ast.Load())
+            return ast.copy_location(ast.Call(func=op, args=[self.visit(n.args[0])], keywords=[]), n)
+        if isinstance(f, ast.Attribute) and f.attr == 'join' and isinstance(f.value, ast.Name) \
+                and f.value.id in getattr(self, 'join_on', ()) and len(n.args) == 1 and not n.keywords \
+                and not isinstance(n.args[0], ast.Starred):
+            self.notes.add('c19:join')
+            op = ast.Name(id=OP + 'join', ctx=ast.Load())
+            return ast.copy_location(ast.Call(func=op, args=[ast.Name(id=f.value.id, ctx=ast.Load()),
+                                                             self.visit(n.args[0])], keywords=[]), n)
         self.generic_visit(n)
         return n
 
@@ -197,15 +220,34 @@ def prepass(fdef, tree, spec, notes):
                             raise Unsupported(n, 'the name %s reserved for the regex operation is used by the source' % p)
                         extra.append(p)
                     n.args.append(ast.Name(id=p, ctx=ast.Load()))
+                n.func = ast.copy_location(ast.Name(id=OP + 'call:' + cname, ctx=ast.Load()), n.func)
                 notes.add('c19:callee-param')
-    # L2 / L3
+    # L5: predicate parameters
+    preds = dict(cfg.get('pred') or {})
+    for pn, opn in preds.items():
+        if pn not in {a.arg for a in f.args.args}:
+            raise Unsupported(f, 'the declared predicate parameter %s is missing' % pn)
+        if any(isinstance(n, ast.Name) and n.id == pn and not isinstance(n.ctx, ast.Load) for n in ast.walk(f)):
+            raise Unsupported(f, 'the predicate parameter %s is rebound' % pn)
+    # L7: defaults dropped
+    if f.args.defaults or f.args.kw_defaults:
+        notes.add('c19:defaults-dropped')
+    f.args.defaults, f.args.kw_defaults = [], [None] * len(f.args.kwonlyargs)
+    f.args.args = [a for a in f.args.args if a.arg not in preds]
+    if preds:
+        notes.add('c19:predicate-param')
+    # L2 / L3 / L5 / L6
     rw = _Rewrite(mvars, group, whole, bool(cfg.get('poly_text')))
+    rw.preds, rw.join_on = preds, (set(texts) | set(cfg.get('text_params', []))) if cfg.get('join') else set()
     f.body = [rw.visit(st) for st in f.body]
     notes.update(rw.notes)
     # every remaining occurrence of a match variable must be the loop target or one produced by L2
     for n in ast.walk(f):
         if isinstance(n, ast.Name) and n.id in mvars and isinstance(n.ctx, ast.Load) and not getattr(n, '_c19_ok', False):
             raise Unsupported(n, 'the match object %s is used otherwise than through start/end/span of group %d' % (n.id, group))
+    for n in ast.walk(f):
+        if isinstance(n, ast.Name) and n.id in preds:
+            raise Unsupported(n, 'the predicate parameter %s is used otherwise than as %s(<expr>)' % (n.id, n.id))
     for p in extra:
         f.args.args.append(ast.arg(arg=p))
     spec['_c19_extra'] = list(extra)
@@ -219,6 +261,23 @@ def alias_nodes(fn, value):
 
 def translate_op(ex, node, expected):
     name = node.func.id[len(OP):] if node.func.id.startswith(OP) else None
+    if name is not None and name.startswith('call:'):
+        # L4: a total, translated function of the same group, emitted before this one
+        callee = [s2 for s2 in ex.fn.spec.get('_c19_group') or [] if s2['qualname'] == name[5:]]
+        if len(callee) != 1 or callee[0].get('raises') or callee[0].get('cls') \
+                or (ex.fn.emitted is not None and callee[0]['lean_name'] not in ex.fn.emitted):
+            raise Unsupported(node, 'call of %s, which is not a total function translated before this one' % name[5:])
+        cs = callee[0]
+        if node.keywords or len(node.args) != len(cs['params']):
+            raise Unsupported(node, 'call arity')
+        terms = []
+        for a, pt in zip(node.args, cs['params'].values()):
+            e, t = ex.expr(a, py2lean.parse_type(pt))
+            if t != py2lean.parse_type(pt):
+                raise Unsupported(a, 'argument of type %s where %s is declared' % (t, pt))
+            terms.append(py2lean.FnTranslator._atom(e))
+        rt = py2lean.parse_type(cs['result'])
+        return '(%s %s)' % (cs['lean_name'], ' '.join(terms)), (('List', rt) if cs['kind'] == 'generator' else rt)
     if name not in OPS or node.keywords:
         raise Unsupported(node, 'unknown operation %s' % node.func.id)
     ptypes, rtype, lean = OPS[name]
@@ -305,6 +364,36 @@ _DRV_CASES = {
 ''',
 }
 
+_DRV_CASES['indent'] = r'''
+  | 1 :: ki :: r =>
+    match takeN r with
+    | some (t, r2) =>
+      match takeN r2 with
+      | some (mg, r3) =>
+        match takeN r3 with
+        | some (nl, r4) =>
+          match takeN r4 with
+          | some (sp, _) =>
+            let text := t.map Int.toNat
+            showInts ((@Src.strutils.indent Nat ⟨keyMenu ki⟩ text (mg.map Int.toNat) (nl.map Int.toNat) (pairsOf sp)).map
+              (fun (c : Nat) => (c : Int)))
+          | none => "bad"
+        | none => "bad"
+      | none => "bad"
+    | none => "bad"
+'''
+
+# the menu of `key` predicates of the indent cases: index -> (Python callable, the same predicate in the Lean driver)
+KEY_MENU = [bool, lambda l: True, lambda l: False, lambda l: l[:1] == 'a', lambda l: len(l) % 2 == 0]
+_DRV_KEYS = r'''
+def keyMenu : Int → List Nat → Bool
+  | 0 => fun l => !l.isEmpty
+  | 1 => fun _ => true
+  | 2 => fun _ => false
+  | 3 => fun l => l.head? == some 97
+  | _ => fun l => l.length % 2 == 0
+'''
+
 ALPHABET = [10, 13, 11, 12, 0x85, 0x2028, 0x2029, 0x1c, 0x1d, 0x1e, 0x20, 0x61, 0x62, 0x7a, 0xe9, 0x1F600, 0xD800, 0]
 
 
@@ -351,7 +440,26 @@ def _cases_iter_splitlines(mod, spec, rng, quick):
     return out
 
 
-CASES = {'iter_splitlines': _cases_iter_splitlines}
+def _cases_indent(mod, spec, rng, quick):
+    out = []
+    import srctie_specs
+    sp0 = [s2 for s2 in srctie_specs.SPECS['C19'] if s2['qualname'] == 'iter_splitlines'][0]
+    for t in _texts(rng, quick):
+        spans = _real_spans(mod, sp0, t)
+        flat = [x for p in spans for x in p]
+        ki = rng.randrange(len(KEY_MENU))
+        margin = rng.choice(['', ' ', '  ', '\t', '> ', 'a'])
+        newline = rng.choice(['\n', '\n', '\r\n', '', '|'])
+        try:
+            want = [ord(c) for c in mod.indent(t, margin, newline, KEY_MENU[ki])]
+        except Exception as e:      # noqa: BLE001
+            want = ['exc', type(e).__name__]
+        out.append(([1, ki] + _enc_text(t) + _enc_text(margin) + _enc_text(newline) + [len(flat)] + flat, want,
+                    repr((t, margin, newline, ki))))
+    return out
+
+
+CASES = {'iter_splitlines': _cases_iter_splitlines, 'indent': _cases_indent}
 
 
 def selftest(pids, quick=False, seed=0, verbose=True):
@@ -384,7 +492,7 @@ def selftest(pids, quick=False, seed=0, verbose=True):
     if not lines:
         return 0, report
     src = ''.join('import %s\n' % m for m in sorted(imports)) + 'import BoltonsVerif.Generated.C19_LineEndings\n' \
-        'import BoltonsVerif.PyRtC19\n' + _DRV_HEAD + '\ndef handle : List Int → String\n' + ''.join(arms) \
+        'import BoltonsVerif.PyRtC19\n' + _DRV_HEAD + _DRV_KEYS + '\ndef handle : List Int → String\n' + ''.join(arms) \
         + '  | _ => "bad"\n' + _DRV_TAIL
     tmp = tempfile.mkdtemp(prefix='py2lean-c19-selftest-')
     try:
